@@ -7,7 +7,7 @@ import os
 import sys
 
 from .. import model, satmodel
-from ..interp import Adt, Term, PyVec
+from ..interp import Adt, Term, PyVec, Machine, Panic, ok, err
 from ..report import Unsupported
 
 sys.path.insert(0, os.path.join(os.path.dirname(__file__), "..", ".."))
@@ -225,6 +225,45 @@ def check_has_sig(chk, F, P, rid="R01.4"):
                                    % (tag, v, hs, satmodel.nf_sat(y)), where)
 
 
+# ---- R01.9 Descriptor::satisfy -------------------------------------------------------------------------------------------------
+
+def check_descriptor_satisfy(chk, F):
+    from ..builtins import deref
+    rid = "R01.9"
+    chk.rule(rid, "Descriptor::satisfy stores exactly the witness and scriptSig get_satisfaction (the non-malleable one) "
+                  "returned in the TxIn, each in its own field, touches nothing else of it, and leaves it unchanged when no "
+                  "satisfaction exists")
+    sat = [q for q in F.fns if q.endswith("descriptor::Descriptor::<Pk>::satisfy")]
+    gs = [q for q in F.fns if q.endswith("descriptor::Descriptor::<Pk>::get_satisfaction")]
+    gsm = [q for q in F.fns if q.endswith("descriptor::Descriptor::<Pk>::get_satisfaction_mall")]
+    if len(sat) != 1 or len(gs) != 1 or len(gsm) != 1:
+        chk.fail(rid, "anchor", "Descriptor::satisfy / get_satisfaction(_mall) not found", kind="unanalysable")
+        return
+    chk.saw(sat[0])
+    for outcome in ("ok", "err"):
+        calls = []
+        hooks = {gs[0]: lambda m_, a, c, o=outcome: (calls.append("nonmall"), ok((PyVec(["w0", "w1"]), "SCRIPTSIG")) if o == "ok" else err(Term("CouldNotSatisfy")))[1],
+                 gsm[0]: lambda m_, a, c: (calls.append("mall"), ok((PyVec(["m0"]), "MALL-SCRIPTSIG")))[1],
+                 "bitcoin::Witness::from_slice": lambda m_, a, c: ("witness-of", [deref(x) for x in deref(a[0]).items])}
+        m = Machine(F, strict=True, hooks=hooks)
+        txin = Adt("bitcoin::TxIn", "TxIn", {"previous_output": Term("outpoint"), "script_sig": "OLD-SCRIPTSIG", "sequence": Term("seq"),
+                                              "witness": "OLD-WITNESS"})
+        try:
+            r = m.call_callee({"def": sat[0], "resolved": sat[0], "name": "satisfy", "targs": ["PK", "S"]}, [Term("descriptor"), txin, Term("satisfier")])
+        except (Unsupported, Panic) as e:
+            chk.fail(rid, "unanalysable:" + outcome, "unanalysable: %s" % e, where=getattr(e, "where", ""), kind="unanalysable")
+            continue
+        f = txin.fields
+        same_rest = repr(f["previous_output"]) == repr(Term("outpoint")) and repr(f["sequence"]) == repr(Term("seq"))
+        if outcome == "ok":
+            good = r.variant == "Ok" and deref(f["witness"]) == ("witness-of", ["w0", "w1"]) and deref(f["script_sig"]) == "SCRIPTSIG" \
+                and same_rest and calls == ["nonmall"]
+        else:
+            good = r.variant == "Err" and deref(f["witness"]) == "OLD-WITNESS" and deref(f["script_sig"]) == "OLD-SCRIPTSIG" and same_rest
+        chk.obligation(rid, good, outcome, "satisfy returns %r and leaves the TxIn as %r (satisfier consulted: %r)" % (r, txin, calls),
+                       F.fns[sat[0]]["span"])
+
+
 def run(chk):
     F = chk.facts()
     chk.explanation = (
@@ -268,5 +307,6 @@ def run(chk):
     # the last steps of a direct satisfaction: the template completed element by element, a failed search reported as such
     from . import c17
     chk.guard("R01.8", "completion-loop", c17.check_completion_loop, chk, F, "R01.8")
+    chk.guard("R01.9", "descriptor-satisfy", check_descriptor_satisfy, chk, F)
     chk.guard("R01.7", "psbt-locks", c14.check_locks, RuleAlias(chk, {"R14.1": "R01.7"}, "the locks a PSBT finalization "
               "relies on are the spent input's own"), F)
